@@ -72,6 +72,83 @@ func runC18(c *Ctx) {
 
 // ---------- R1 ----------
 
+// c18PathVals: the values denoting Config.path (set by c18R1 before the per-site checks).
+var c18PathVals map[ssa.Value]bool
+
+// c18PropagateToParams extends set with the parameters of unexported, non-closure
+// functions whose every call site (in fns) passes a value that denotes a member
+// of set (fixpoint): a helper that is only ever handed X sees X in its parameter.
+func c18PropagateToParams(fns []*ssa.Function, set map[ssa.Value]bool) {
+	for round := 0; round < 4; round++ {
+		changed := false
+		for _, K := range fns {
+			if K.Parent() != nil || (K.Object() != nil && K.Object().Exported() && !strings.Contains(fnPkgPath(K), "/internal/")) {
+				continue
+			}
+			for i, prm := range K.Params {
+				if set[prm] {
+					continue
+				}
+				n, all := 0, true
+				for _, f := range fns {
+					for _, call := range Calls(f, func(string) bool { return true }) {
+						if StaticCallee(call) != K || i >= len(call.Common().Args) {
+							continue
+						}
+						n++
+						rs := Roots(call.Common().Args[i])
+						if len(rs) == 0 {
+							all = false
+						}
+						for _, r := range rs {
+							if !set[r] {
+								all = false
+							}
+						}
+					}
+				}
+				if n > 0 && all {
+					set[prm] = true
+					for a := range Aliases(prm) {
+						set[a] = true
+					}
+					changed = true
+				}
+			}
+		}
+		if !changed {
+			return
+		}
+	}
+}
+
+// c18DenotesAny: v may denote a member of set (value identity through phis,
+// cells and variables captured by closures — not mere derivation).
+func c18DenotesAny(v ssa.Value, set map[ssa.Value]bool, depth int) bool {
+	if depth > 4 {
+		return false
+	}
+	for _, r := range Roots(v) {
+		if set[r] {
+			return true
+		}
+		if ld, ok := r.(*ssa.UnOp); ok && ld.Op == token.MUL {
+			if fv, ok := ld.X.(*ssa.FreeVar); ok {
+				for _, b := range freeVarBindings(fv) {
+					if a, ok := b.(*ssa.Alloc); ok {
+						for _, st := range storesTo(a) {
+							if c18DenotesAny(st.Val, set, depth+1) {
+								return true
+							}
+						}
+					}
+				}
+			}
+		}
+	}
+	return false
+}
+
 func c18FileFrom(v ssa.Value, creates map[ssa.Value]bool) bool { return c11DerivesFrom(v, creates) }
 
 func c18OwnerOnly(v ssa.Value) (bool, bool) {
@@ -144,6 +221,8 @@ func c18R1(c *Ctx, fns []*ssa.Function) {
 			}
 		}
 	}
+	// helpers that are only ever handed the temp file: their parameter denotes the temp file too
+	c18PropagateToParams(fns, creates)
 	isIngest := func(g *ssa.Function) bool {
 		for _, x := range ingestFns {
 			if x == g {
@@ -152,7 +231,16 @@ func c18R1(c *Ctx, fns []*ssa.Function) {
 		}
 		return false
 	}
-	pathLoads := func(f *ssa.Function) map[ssa.Value]bool { return c11FieldReads(f, c18Cfg+".path") }
+	// Config.path: loads of the field, and parameters of helpers that are only ever handed it
+	pathVals := map[ssa.Value]bool{}
+	for _, f := range fns {
+		for v := range c11FieldReads(f, c18Cfg+".path") {
+			pathVals[v] = true
+		}
+	}
+	c18PropagateToParams(fns, pathVals)
+	c18PathVals = pathVals
+	pathLoads := func(f *ssa.Function) map[ssa.Value]bool { return pathVals }
 	// temp-file names: (*os.File).Name() of a created file, and results of ingest calls
 	tempNames := map[ssa.Value]bool{}
 	for _, f := range fns {
@@ -179,6 +267,7 @@ func c18R1(c *Ctx, fns []*ssa.Function) {
 			}
 		}
 	}
+	captured := map[*ssa.Function]bool{} // ingest function -> a Close of the temp file whose error is captured exists
 	nCreate, nRename := 0, 0
 	seen := map[string]int{}
 	for _, s := range sites {
@@ -201,7 +290,7 @@ func c18R1(c *Ctx, fns []*ssa.Function) {
 			nRename++
 			c18Rename(c, R1, key, s, fns, isIngest)
 		case "os.Remove":
-			ok := c11DerivesFrom(args[0], tempNames) && !c11DerivesFrom(args[0], pathLoads(s.Fn))
+			ok := (c11DerivesFrom(args[0], tempNames) || c18HelperArgIsTempName(args[0], fns, tempNames)) && !c18DenotesAny(args[0], pathVals, 0)
 			c.Check(R1, key, s.Call.Pos(), ok, ifelse(ok, "removes the temp file only", "removes something other than the ingest temp file (the config file itself may be deleted)"))
 		case "(*os.File).Chmod":
 			own, known := c18OwnerOnly(args[1])
@@ -211,11 +300,39 @@ func c18R1(c *Ctx, fns []*ssa.Function) {
 			if c18FileFrom(args[0], readOnly) && !c18FileFrom(args[0], creates) {
 				continue // closing a handle obtained with os.Open (read-only) is not a file-system effect
 			}
+			if rs := Roots(args[0]); len(rs) == 1 {
+				if prm, isP := rs[0].(*ssa.Parameter); isP && prm.Parent().Parent() == nil && (creates[prm] || c18ParamAlwaysTempFile(args[0], fns, creates)) {
+					continue // a closing helper that is only ever handed the temp file: judged below, at its call sites
+				}
+			}
 			if !c18FileFrom(args[0], creates) {
 				c.Violation(R1, key, s.Call.Pos(), "Close of a file that is not the ingest temp file: unclassified effect")
 				continue
 			}
 			ok, why := c18CloseCaptured(s)
+			root := s.Fn
+			for root.Parent() != nil {
+				root = root.Parent()
+			}
+			if !ok && s.Fn.Parent() == nil {
+				// a Close whose error is dropped is harmless where the function fails anyway (clean-up after a failed write)
+				failing := true
+				if in, isInstr := s.Call.(ssa.Instruction); isInstr {
+					for _, a := range c11SuccessAtoms(s.Fn) {
+						ab, ai := a.anchor()
+						if reach(in.Block(), instrIndex(in)+1, ab.Instrs[ai], nil) {
+							failing = false
+						}
+					}
+				}
+				if _, isDefer := s.Call.(*ssa.Defer); !isDefer && failing {
+					c.OK(R1, key, s.Call.Pos(), "Close on a path that can only fail: its error is subsumed by the error already being returned")
+					continue
+				}
+			}
+			if ok {
+				captured[root] = true
+			}
 			c.Check(R1, key, s.Call.Pos(), ok, ifelse(ok, "a failing Close of the temp file turns the ingest into a failure (unless it already failed)", why))
 		case "(*os.File).Write", "(*os.File).WriteString", "(*os.File).Sync":
 			if !c18FileFrom(args[0], creates) {
@@ -229,54 +346,167 @@ func c18R1(c *Ctx, fns []*ssa.Function) {
 				"an in-place writer leaves a truncated or half-written config file when the process dies")
 		}
 	}
+	// closing helpers (closeKeepingError-style): handed the temp file and a pointer to the error result
+	for _, I := range ingestFns {
+		for _, f := range append([]*ssa.Function{I}, Anons(I)...) {
+			for _, call := range Calls(f, func(string) bool { return true }) {
+				K := StaticCallee(call)
+				if K == nil || K == I || K.Parent() != nil || !inModule(K) || len(K.Blocks) == 0 {
+					continue
+				}
+				args := call.Common().Args
+				for i, a := range args {
+					if i >= len(K.Params) || !c18FileFrom(a, creates) {
+						continue
+					}
+					var cl *ssa.Call
+					AllInstrs(K, func(in ssa.Instruction) {
+						cv, ok := in.(*ssa.Call)
+						if !ok {
+							return
+						}
+						if cv.Call.IsInvoke() && cv.Call.Method.Name() == "Close" && c11SameRoots(cv.Call.Value, K.Params[i]) {
+							cl = cv
+						}
+						if CalleeName(cv) == "(*os.File).Close" && c11SameRoots(cv.Call.Args[0], K.Params[i]) {
+							cl = cv
+						}
+					})
+					if cl == nil {
+						continue
+					}
+					key := FnName(I) + "|close-error-captured-via:" + FnName(K)
+					// which argument is the pointer to the ingest's error result
+					errIdx := ErrResultIndex(I.Signature)
+					cells := map[ssa.Value]bool{}
+					for _, r := range Returns(I) {
+						if errIdx >= 0 {
+							if al := cellOf(r.Results[errIdx]); al != nil {
+								cells[al] = true
+							}
+						}
+					}
+					j := -1
+					for k, b := range args {
+						if cells[b] {
+							j = k
+						}
+						if fv, isFV := b.(*ssa.FreeVar); isFV {
+							for _, bnd := range freeVarBindings(fv) {
+								if cells[bnd] {
+									j = k
+								}
+							}
+						}
+					}
+					if j < 0 || j >= len(K.Params) {
+						c.Violation(R1, key, call.Pos(), "the temp file is closed by a helper that is not given the ingest's error result: a failed close (delayed write error) is lost and the incomplete file is renamed over the config")
+						continue
+					}
+					ok, why := c18CloseIntoCell(K, cl, K.Params[j])
+					if ok {
+						in := call.(ssa.Instruction)
+						atoms := c11SuccessAtoms(I)
+						if f != I {
+							ok, why = false, "the closing helper is called from a closure; shape not recognised"
+						} else if !c11AllAtomsPass(atoms, func() *cut { return newCut().Instr(in) }) {
+							ok, why = false, "a successful return of the ingest does not run the closing helper"
+						}
+					}
+					if ok {
+						captured[I] = true
+					}
+					c.Check(R1, key, call.Pos(), ok, ifelse(ok, "the helper closes the temp file and stores a failing Close into the ingest's error result unless an error is already pending; it runs on every successful return", why))
+				}
+			}
+		}
+		if !captured[I] {
+			c.Violation(R1, FnName(I)+"|close-error-captured", I.Pos(), "the temp file is never closed with its error captured on the success path: a delayed write error reported by Close is lost and the incomplete file is renamed over the config")
+		}
+	}
 	if nCreate == 0 {
 		c.LostAnchor(R1, "creation of the ingest temp file (os.CreateTemp) in credentials/internal/{config,ioutil}")
 	}
 	if nRename == 0 {
 		c.LostAnchor(R1, "os.Rename onto Config.path in credentials/internal/config")
 	}
-	// the ingest function: every error surfaces, success implies the content was written, Close is deferred/explicit on every success path
+	// the ingest function: every error surfaces, success implies the content was written, Close is deferred/explicit on every success path.
+	// Steps may be delegated to helpers that are handed the temp file.
+	isCopy := func(nm string) bool {
+		return nm == "io.Copy" || nm == "io.CopyBuffer" || nm == "io.CopyN" || nm == "(*os.File).Write" || nm == "(*os.File).WriteString" || nm == "io.WriteString" || nm == "(*os.File).ReadFrom"
+	}
 	for _, I := range ingestFns {
 		in := FnName(I)
-		var writes []ssa.CallInstruction
-		for _, call := range Calls(I, func(string) bool { return true }) {
-			if _, isDefer := call.(*ssa.Defer); isDefer {
-				continue
-			}
-			nm := CalleeName(call)
-			sig := call.Common().Signature()
-			if sig == nil || ErrResultIndex(sig) < 0 {
-				continue
-			}
-			// every content copy inside the ingest function is examined, whatever its destination looks like
-			touches := nm == "os.CreateTemp" || nm == "io/ioutil.TempFile" || nm == "io.Copy" || nm == "io.CopyBuffer" || nm == "io.CopyN" || nm == "io.WriteString"
-			for _, a := range call.Common().Args {
-				if c18FileFrom(a, creates) {
-					touches = true
+		hasWrite := func(f *ssa.Function) bool {
+			for _, call := range Calls(f, isCopy) {
+				if _, isDefer := call.(*ssa.Defer); !isDefer {
+					return true
 				}
 			}
-			if !touches {
+			return false
+		}
+		F, links := c11FindUnit(I, hasWrite, 2, map[*ssa.Function]bool{})
+		scan := []*ssa.Function{I}
+		for _, f := range fns {
+			if f == I || f.Parent() != nil {
 				continue
 			}
-			if nm == "io.Copy" || nm == "io.CopyBuffer" || nm == "io.CopyN" || nm == "(*os.File).Write" || nm == "(*os.File).WriteString" || nm == "io.WriteString" || nm == "(*os.File).ReadFrom" {
-				writes = append(writes, call)
-				c18WriterIsTempFile(c, R1, I, call, creates)
-			}
-			if v := call.Value(); v != nil && ErrNilStatus(v, 0) == NonNil {
-				continue
-			}
-			r := ErrFlow(call, ErrFlowOpts{})
-			c.Check(R1, in+"|error-surfaces:"+nm, call.Pos(), r.OK, ifelse(r.OK, r.How, "an error while preparing the temp file is swallowed, the incomplete file is then renamed over the config: "+r.Detail))
-		}
-		atoms := c11SuccessAtoms(I)
-		var wNil []Edge
-		for _, w := range writes {
-			if e := ErrOf(w); e != nil {
-				ne, _, _ := NilTests(I, Aliases(e))
-				wNil = append(wNil, ne...)
+			for _, prm := range f.Params {
+				if creates[prm] {
+					scan = append(scan, f)
+					break
+				}
 			}
 		}
-		ok := len(writes) > 0 && len(atoms) > 0 && len(wNil) > 0 && c11AllAtomsPass(atoms, func() *cut { return newCut().Edges(wNil...) })
+		var writes []ssa.CallInstruction
+		for _, f := range scan {
+			for _, call := range Calls(f, func(string) bool { return true }) {
+				if _, isDefer := call.(*ssa.Defer); isDefer {
+					continue
+				}
+				nm := CalleeName(call)
+				sig := call.Common().Signature()
+				if sig == nil || ErrResultIndex(sig) < 0 {
+					continue
+				}
+				// every content copy is examined, whatever its destination looks like
+				touches := nm == "os.CreateTemp" || nm == "io/ioutil.TempFile" || nm == "io.Copy" || nm == "io.CopyBuffer" || nm == "io.CopyN" || nm == "io.WriteString"
+				for _, a := range call.Common().Args {
+					if c18FileFrom(a, creates) {
+						touches = true
+					}
+				}
+				if !touches {
+					continue
+				}
+				if isCopy(nm) {
+					if f == F {
+						writes = append(writes, call)
+					}
+					c18WriterIsTempFile(c, R1, I, f, call, creates)
+				}
+				if v := call.Value(); v != nil && ErrNilStatus(v, 0) == NonNil {
+					continue
+				}
+				if nm == "(*os.File).Close" || nm == "(io.Closer).Close" {
+					continue // judged by the Close rules (captured on the success path, droppable on failing paths)
+				}
+				r := ErrFlow(call, ErrFlowOpts{})
+				c.Check(R1, in+"|error-surfaces:"+nm, call.Pos(), r.OK, ifelse(r.OK, r.How, "an error while preparing the temp file is swallowed, the incomplete file is then renamed over the config: "+r.Detail))
+			}
+		}
+		ok := false
+		if F != nil {
+			atoms := c11SuccessAtoms(F)
+			var wNil []Edge
+			for _, w := range writes {
+				if e := ErrOf(w); e != nil {
+					ne, _, _ := NilTests(F, Aliases(e))
+					wNil = append(wNil, ne...)
+				}
+			}
+			ok = len(writes) > 0 && len(atoms) > 0 && len(wNil) > 0 && c11AllAtomsPass(atoms, func() *cut { return newCut().Edges(wNil...) }) && c11LinksPass(links)
+		}
 		c.Check(R1, in+"|success-implies-content-written", I.Pos(), ok,
 			ifelse(ok, "every successful return lies behind the err==nil edge of the content copy", "the ingest can report success without having written the whole content"))
 	}
@@ -287,7 +517,7 @@ func c18R1(c *Ctx, fns []*ssa.Function) {
 // defers the real write(2) to its Flush/Close, whose error must then surface on
 // every successful return; otherwise a short write leaves a truncated temp file
 // that is renamed over the config while Put reports success.
-func c18WriterIsTempFile(c *Ctx, R1 string, I *ssa.Function, cp ssa.CallInstruction, creates map[ssa.Value]bool) {
+func c18WriterIsTempFile(c *Ctx, R1 string, I, F *ssa.Function, cp ssa.CallInstruction, creates map[ssa.Value]bool) {
 	key := FnName(I) + "|copy-destination-is-temp-file"
 	dst := cp.Common().Args[0]
 	var wrappers []*ssa.Call
@@ -325,18 +555,18 @@ func c18WriterIsTempFile(c *Ctx, R1 string, I *ssa.Function, cp ssa.CallInstruct
 		c.Undecided(R1, key, cp.Pos(), "the content is written through "+strings.Join(unknown, ", ")+", which wraps (or replaces) the temp file in a way the checker does not model: if it buffers, the error of the real write may be lost")
 		return
 	}
-	atoms := c11SuccessAtoms(I)
+	atoms := c11SuccessAtoms(F)
 	for _, w := range wrappers {
 		var flushNil []Edge
 		bad := ""
 		n := 0
-		for _, f := range append([]*ssa.Function{I}, Anons(I)...) {
+		for _, f := range append([]*ssa.Function{F}, Anons(F)...) {
 			for _, fl := range CallsTo(f, "(*bufio.Writer).Flush") {
 				if !c11DerivesFrom(fl.Common().Args[0], map[ssa.Value]bool{w: true}) {
 					continue
 				}
 				n++
-				if _, isDefer := fl.(*ssa.Defer); isDefer || f != I {
+				if _, isDefer := fl.(*ssa.Defer); isDefer || f != F {
 					bad = "the buffered writer is flushed in a defer / closure whose error is dropped"
 					continue
 				}
@@ -345,7 +575,7 @@ func c18WriterIsTempFile(c *Ctx, R1 string, I *ssa.Function, cp ssa.CallInstruct
 					continue
 				}
 				if e := ErrOf(fl); e != nil {
-					ne, _, _ := NilTests(I, Aliases(e))
+					ne, _, _ := NilTests(F, Aliases(e))
 					flushNil = append(flushNil, ne...)
 				}
 			}
@@ -372,7 +602,7 @@ func c18TempDirIsTargetDir(s EffectSite, callers map[*ssa.Function][]ssa.CallIns
 		for _, r := range Roots(v) {
 			switch u := r.(type) {
 			case *ssa.Call:
-				if CalleeName(u) == "path/filepath.Dir" && c11DerivesFrom(u.Call.Args[0], c11FieldReads(fn, c18Cfg+".path")) {
+				if CalleeName(u) == "path/filepath.Dir" && c11DerivesFrom(u.Call.Args[0], c18PathVals) {
 					continue
 				}
 				return false, "the temp file's directory is " + describe(u) + ", not filepath.Dir(Config.path): a rename across directories/file systems is not atomic"
@@ -388,7 +618,7 @@ func c18TempDirIsTargetDir(s EffectSite, callers map[*ssa.Function][]ssa.CallIns
 				}
 				cs := callers[fn]
 				if len(cs) == 0 {
-					return false, "the ingest function has no caller in the config packages"
+					return true, "" // not used by the config packages: nothing is written through it
 				}
 				for _, call := range cs {
 					if ok, why := check(call.Common().Args[idx], call.Parent(), depth+1); !ok {
@@ -408,10 +638,9 @@ func c18TempDirIsTargetDir(s EffectSite, callers map[*ssa.Function][]ssa.CallIns
 }
 
 func c18Rename(c *Ctx, R1, key string, s EffectSite, fns []*ssa.Function, isIngest func(*ssa.Function) bool) {
-	fn := s.Fn
 	args := s.Call.Common().Args
-	pl := c11FieldReads(fn, c18Cfg+".path")
-	okNew := true
+	pl := c18PathVals
+	okNew := len(pl) > 0
 	for _, r := range Roots(args[1]) {
 		if !pl[r] {
 			okNew = false
@@ -434,6 +663,18 @@ func c18Rename(c *Ctx, R1, key string, s EffectSite, fns []*ssa.Function, isInge
 	}
 	why := ""
 	ok := okNew && okOld && ing != nil
+	if okNew && !ok {
+		// the ingest inlined: the old name is Name() of a temp file created here; then the rename must lie behind
+		// the successful creation, the successful content write and a successful explicit Close of that file
+		if inl, w := c18InlineIngestBeforeRename(s); inl {
+			r := ErrFlow(s.Call, ErrFlowOpts{})
+			c.Check(R1, key, s.Call.Pos(), r.OK, ifelse(r.OK, "renames the temp file created, completely written and closed in this function onto Config.path; its error surfaces", "a failed rename is reported as success: "+r.Detail))
+			return
+		} else if w != "" {
+			c.Violation(R1, key, s.Call.Pos(), w+" — the config file can be replaced by an incomplete file")
+			return
+		}
+	}
 	switch {
 	case !okNew:
 		why = "the rename target is not Config.path"
@@ -452,6 +693,72 @@ func c18Rename(c *Ctx, R1, key string, s EffectSite, fns []*ssa.Function, isInge
 	}
 	c.Check(R1, key, s.Call.Pos(), ok, ifelse(ok, "renames the completely written, closed temp file onto Config.path, behind the success edge of the ingest; its error surfaces",
 		why+" — the config file can be replaced by an incomplete file or the failure goes unnoticed"))
+}
+
+// c18InlineIngestBeforeRename: (true, "") when the renamed file is a temp file
+// created in the same function and the rename is dominated by the success of
+// CreateTemp, of every content write and of an explicit Close; (false, why)
+// when it is such a temp file but an obligation fails; (false, "") otherwise.
+func c18InlineIngestBeforeRename(s EffectSite) (bool, string) {
+	fn := s.Fn
+	at := s.Call.(ssa.Instruction)
+	var file ssa.Value
+	for _, r := range Roots(s.Call.Common().Args[0]) {
+		nc, ok := r.(*ssa.Call)
+		if !ok || CalleeName(nc) != "(*os.File).Name" {
+			return false, ""
+		}
+		for _, fr := range Roots(nc.Call.Args[0]) {
+			ex, ok := fr.(*ssa.Extract)
+			if !ok {
+				return false, ""
+			}
+			ct, ok := ex.Tuple.(*ssa.Call)
+			if !ok || (CalleeName(ct) != "os.CreateTemp" && CalleeName(ct) != "io/ioutil.TempFile") || ct.Parent() != fn {
+				return false, ""
+			}
+			file = ex
+			if d, w := c11SuccessDominates(ct, at); !d {
+				return false, "the rename is reachable although the temp file could not be created: " + w
+			}
+		}
+	}
+	if file == nil {
+		return false, ""
+	}
+	fileSet := map[ssa.Value]bool{file: true}
+	nWrites, nClose := 0, 0
+	for _, call := range Calls(fn, func(string) bool { return true }) {
+		cv, isCall := call.(*ssa.Call)
+		if !isCall {
+			continue
+		}
+		nm := CalleeName(call)
+		switch nm {
+		case "io.Copy", "io.CopyBuffer", "io.CopyN", "io.WriteString", "(*os.File).Write", "(*os.File).WriteString":
+			if !c11DerivesFrom(cv.Call.Args[0], fileSet) {
+				continue
+			}
+			nWrites++
+			if d, _ := c11SuccessDominates(cv, at); !d {
+				return false, "the rename is reachable although writing the content failed"
+			}
+		case "(*os.File).Close":
+			if !c11DerivesFrom(cv.Call.Args[0], fileSet) || !Reachable(cv, at) {
+				continue
+			}
+			if d, _ := c11SuccessDominates(cv, at); d {
+				nClose++
+			}
+		}
+	}
+	if nWrites == 0 {
+		return false, "the temp file is renamed without the content having been written to it in this function"
+	}
+	if nClose == 0 {
+		return false, "the temp file is renamed before it was closed successfully (a delayed write error reported by Close comes too late)"
+	}
+	return true, ""
 }
 
 // c18CloseCaptured: the error of Close reaches the ingest's error result when
@@ -492,33 +799,8 @@ func c18CloseCaptured(s EffectSite) (bool, string) {
 	if fv == nil {
 		return false, "the closure closing the temp file does not capture the enclosing function's error result"
 	}
-	aliases := Aliases(e)
-	cutC := newCut()
-	loads := map[ssa.Value]bool{}
-	for _, ref := range *fv.Referrers() {
-		switch u := ref.(type) {
-		case *ssa.Store:
-			if u.Addr == ssa.Value(fv) && c11DerivesFrom(u.Val, aliases) {
-				cutC.Instr(u)
-			}
-		case *ssa.UnOp:
-			if u.Op == token.MUL {
-				loads[u] = true
-			}
-		}
-	}
-	_, pending, _ := NilTests(g, loads)
-	cutC.Edges(pending...)
-	_, nonNil, _ := NilTests(g, aliases)
-	if len(nonNil) == 0 {
-		return false, "the error of Close is never tested: a failed close is lost"
-	}
-	for _, ne := range nonNil {
-		for _, r := range Returns(g) {
-			if reach(ne.To, 0, r, cutC) {
-				return false, "a failing Close does not always become the ingest's error (no store to the error result on some path, and no earlier error pending)"
-			}
-		}
+	if ok, why := c18CloseIntoCell(g, e, fv); !ok {
+		return false, why
 	}
 	// the closure runs on every successful return of the parent
 	var runs []ssa.Instruction
@@ -541,6 +823,153 @@ func c18CloseCaptured(s EffectSite) (bool, string) {
 	return true, ""
 }
 
+// c18CloseIntoCell: in g, whenever the Close result e is non-nil it is stored
+// through cellPtr (a captured variable or a *error parameter), unless the cell
+// already holds an error.  Accepts both `if e != nil && *p == nil { *p = e }`
+// and `if *p == nil { *p = e }`.
+func c18CloseIntoCell(g *ssa.Function, e ssa.Value, cellPtr ssa.Value) (bool, string) {
+	aliases := Aliases(e)
+	cutC := newCut()
+	loads := map[ssa.Value]bool{}
+	refs := cellPtr.Referrers()
+	if refs == nil {
+		return false, "the error cell is not used"
+	}
+	stored := false
+	for _, ref := range *refs {
+		switch u := ref.(type) {
+		case *ssa.Store:
+			if u.Addr == cellPtr && c11DerivesFrom(u.Val, aliases) {
+				cutC.Instr(u)
+				stored = true
+			}
+		case *ssa.UnOp:
+			if u.Op == token.MUL {
+				loads[u] = true
+			}
+		}
+	}
+	if !stored {
+		return false, "the error of Close is never stored into the ingest's error result: a failed close is lost"
+	}
+	_, pending, _ := NilTests(g, loads)
+	cutC.Edges(pending...)
+	// start points: the non-nil edges of a test on e, or (untested e) the point right after the Close
+	_, nonNil, _ := NilTests(g, aliases)
+	if len(nonNil) > 0 {
+		for _, ne := range nonNil {
+			for _, r := range Returns(g) {
+				if reach(ne.To, 0, r, cutC) {
+					return false, "a failing Close does not always become the ingest's error (no store to the error result on some path, and no earlier error pending)"
+				}
+			}
+		}
+		return true, ""
+	}
+	in, ok := e.(ssa.Instruction)
+	if !ok {
+		return false, "Close result unavailable"
+	}
+	for _, r := range Returns(g) {
+		if reach(in.Block(), instrIndex(in)+1, r, cutC) {
+			return false, "the Close error is not stored on every path on which no earlier error is pending"
+		}
+	}
+	return true, ""
+}
+
+// c18HelperArgIsTempName: v is a (string or *string) parameter of an unexported
+// helper, and every call site passes the temp file's name (or the address of
+// a variable that only ever holds that name or "").
+func c18HelperArgIsTempName(v ssa.Value, fns []*ssa.Function, tempNames map[ssa.Value]bool) bool {
+	rs := Roots(v)
+	if len(rs) != 1 {
+		return false
+	}
+	var prm *ssa.Parameter
+	viaPtr := false
+	switch u := rs[0].(type) {
+	case *ssa.Parameter:
+		prm = u
+	case *ssa.UnOp:
+		if p, ok := u.X.(*ssa.Parameter); ok && u.Op == token.MUL {
+			prm, viaPtr = p, true
+		}
+	}
+	if prm == nil || prm.Parent().Parent() != nil {
+		return false
+	}
+	K := prm.Parent()
+	idx := -1
+	for i, q := range K.Params {
+		if q == prm {
+			idx = i
+		}
+	}
+	n := 0
+	for _, f := range fns {
+		for _, call := range Calls(f, func(string) bool { return true }) {
+			if StaticCallee(call) != K || idx < 0 || idx >= len(call.Common().Args) {
+				continue
+			}
+			n++
+			a := call.Common().Args[idx]
+			if !viaPtr {
+				if !c11DerivesFrom(a, tempNames) {
+					return false
+				}
+				continue
+			}
+			cell, ok := a.(*ssa.Alloc)
+			if !ok {
+				return false
+			}
+			for _, st := range storesTo(cell) {
+				if k, isStr := constString(st.Val); isStr && k == "" {
+					continue
+				}
+				if !c11DerivesFrom(st.Val, tempNames) {
+					return false
+				}
+			}
+		}
+	}
+	return n > 0
+}
+
+// c18ParamAlwaysTempFile: v is a parameter of an unexported helper whose every
+// call site in the packages passes the ingest temp file.
+func c18ParamAlwaysTempFile(v ssa.Value, fns []*ssa.Function, creates map[ssa.Value]bool) bool {
+	rs := Roots(v)
+	if len(rs) != 1 {
+		return false
+	}
+	prm, ok := rs[0].(*ssa.Parameter)
+	if !ok || prm.Parent().Parent() != nil {
+		return false
+	}
+	K := prm.Parent()
+	idx := -1
+	for i, q := range K.Params {
+		if q == prm {
+			idx = i
+		}
+	}
+	n := 0
+	for _, f := range fns {
+		for _, call := range Calls(f, func(string) bool { return true }) {
+			if StaticCallee(call) != K {
+				continue
+			}
+			n++
+			if idx < 0 || idx >= len(call.Common().Args) || !c18FileFrom(call.Common().Args[idx], creates) {
+				return false
+			}
+		}
+	}
+	return n > 0
+}
+
 // ---------- R2 ----------
 
 func c18R2(c *Ctx) {
@@ -556,6 +985,76 @@ func c18R2(c *Ctx) {
 			m + "IsAuthConfigured":                               "advisory query, not among Get/Put/Delete; documented exception (DESIGN C18.R2)",
 		},
 	}}, []string{c18CfgPkg})
+	c18ReplaceUnderWriteLock(c, R2)
+}
+
+// c18ReplaceUnderWriteLock: the replacement of the file (os.Rename onto
+// Config.path) runs with Config.rwLock held for writing — in the function
+// itself or in every caller chain — so that the order in which concurrent
+// Put/Delete/SetCredentialsStore calls update the in-memory state is the order
+// in which their files replace each other.  Releasing the lock between the
+// update and the save lets an older document be renamed over a newer one.
+func c18ReplaceUnderWriteLock(c *Ctx, R2 string) {
+	fns := c.P.FuncsOfPkg(c18CfgPkg)
+	callers := map[*ssa.Function][]ssa.CallInstruction{}
+	for _, f := range fns {
+		for _, call := range Calls(f, func(string) bool { return true }) {
+			if g := StaticCallee(call); g != nil {
+				callers[g] = append(callers[g], call)
+			}
+		}
+	}
+	cache := map[*ssa.Function]map[ssa.Instruction]heldSet{}
+	var holdsW func(f *ssa.Function, at ssa.Instruction, depth int, seen map[*ssa.Function]bool) (bool, string)
+	holdsW = func(f *ssa.Function, at ssa.Instruction, depth int, seen map[*ssa.Function]bool) (bool, string) {
+		if cache[f] == nil {
+			cache[f] = heldAt(f, heldSet{})
+		}
+		for path, mode := range cache[f][at] {
+			if strings.HasSuffix(path, ".rwLock") && mode >= modeW {
+				return true, ""
+			}
+		}
+		if depth > 4 || seen[f] {
+			return false, "caller chain too deep"
+		}
+		if f.Parent() != nil {
+			return false, FnName(f) + " is a closure; the lock is not held inside it"
+		}
+		if f.Object() != nil && f.Object().Exported() {
+			return false, FnName(f) + " is exported and does not hold Config.rwLock for writing at " + c.P.Pos(at.Pos())
+		}
+		cs := callers[f]
+		if len(cs) == 0 {
+			return false, FnName(f) + " has no caller that could hold the lock"
+		}
+		seen[f] = true
+		defer delete(seen, f)
+		for _, call := range cs {
+			if _, isGo := call.(*ssa.Go); isGo {
+				return false, "called in a new goroutine"
+			}
+			if _, isDefer := call.(*ssa.Defer); isDefer {
+				return false, "called deferred at " + c.P.Pos(call.Pos())
+			}
+			if ok, why := holdsW(call.Parent(), call.(ssa.Instruction), depth+1, seen); !ok {
+				return false, "the call from " + FnName(call.Parent()) + " at " + c.P.Pos(call.Pos()) + " does not hold it (" + why + ")"
+			}
+		}
+		return true, ""
+	}
+	n := 0
+	for _, f := range fns {
+		for _, rn := range CallsTo(f, "os.Rename", "os.WriteFile") {
+			n++
+			ok, why := holdsW(f, rn.(ssa.Instruction), 0, map[*ssa.Function]bool{})
+			c.Check(R2, FnName(f)+"|file-replaced-under-write-lock", rn.Pos(), ok, ifelse(ok, "Config.rwLock is held for writing (locally or in every caller) when the config file is replaced",
+				"the config file is replaced without Config.rwLock held for writing: "+why+" — two concurrent updates can marshal in one order and rename in the other, leaving the older document on disk although both calls returned nil"))
+		}
+	}
+	if n == 0 {
+		c.LostAnchor(R2, "replacement of the config file (os.Rename) in credentials/internal/config")
+	}
 }
 
 // ---------- R3 ----------
@@ -712,61 +1211,161 @@ func c18R3(c *Ctx, fns []*ssa.Function, fields map[string]types.Type) {
 	for _, fn := range fns {
 		for _, call := range Calls(fn, func(string) bool { return true }) {
 			g := StaticCallee(call)
-			if g == nil || fnPkgPath(g) != pkgPath(c18IOPkg) || len(CallsTo(g, "os.CreateTemp")) == 0 {
+			var reader ssa.Value
+			switch nm := CalleeName(call); {
+			case g != nil && inModule(g) && g != fn && len(CallsTo(g, "os.CreateTemp")) > 0:
+				// the ingest helper: its reader argument
+				for _, a := range call.Common().Args {
+					if types.IsInterface(a.Type()) {
+						reader = a
+					}
+				}
+				if reader == nil {
+					continue // not handed any content: merely a caller of the function that saves
+				}
+			case len(CallsTo(fn, "os.CreateTemp")) > 0 && (nm == "io.Copy" || nm == "io.CopyBuffer" || nm == "io.CopyN" || nm == "io.WriteString" || nm == "(*os.File).Write" || nm == "(*os.File).WriteString"):
+				// the ingest inlined: the source of the content write
+				reader = call.Common().Args[1]
+			default:
 				continue
 			}
 			found = true
 			tn := FnName(fn)
-			var reader ssa.Value
-			for _, a := range call.Common().Args {
-				if types.IsInterface(a.Type()) {
-					reader = a
-				}
-			}
-			var mi ssa.CallInstruction
-			for _, m := range CallsTo(fn, "encoding/json.MarshalIndent", "encoding/json.Marshal") {
-				if r0 := ResultOf(m, 0); r0 != nil && reader != nil && c11DerivesFrom(reader, map[ssa.Value]bool{r0: true}) {
-					mi = m
-				}
-			}
-			if mi == nil {
+			// where do the bytes come from: followed through wrappers (bytes.NewReader), parameters of helpers (to
+			// their call sites) and results of helpers (to what they return), each hop behind the success edge
+			var marshals []*ssa.Call
+			chainOK := c18ResolveMarshal(fns, reader, call.(ssa.Instruction), 0, map[ssa.Value]bool{}, &marshals)
+			if len(marshals) == 0 {
 				c.Violation(R3, tn+"|ingested-bytes", call.Pos(), "the bytes written to the config file are not the JSON encoding of Config.content")
 				continue
 			}
-			ok := c11DerivesFrom(mi.Common().Args[0], c11FieldReads(fn, c18Cfg+".content"))
-			if mv, isCall := mi.(*ssa.Call); ok && isCall {
-				if d, _ := c11SuccessDominates(mv, call.(ssa.Instruction)); !d {
+			ok := chainOK
+			for _, mi := range marshals {
+				if !c11DerivesFrom(mi.Call.Args[0], c11FieldReads(mi.Parent(), c18Cfg+".content")) {
 					ok = false
 				}
 			}
 			c.Check(R3, tn+"|ingested-bytes", call.Pos(), ok, ifelse(ok, "the ingested bytes are json.MarshalIndent(Config.content), on its success edge", "the ingested bytes are not (a successful) json encoding of Config.content: keys this library does not know are lost"))
 			// the auths / credsStore entries are refreshed before marshalling
-			for _, k := range []string{"auths", "credsStore"} {
-				var upd []ssa.Instruction
-				content := c11FieldReads(fn, c18Cfg+".content")
-				AllInstrs(fn, func(in ssa.Instruction) {
-					switch u := in.(type) {
-					case *ssa.MapUpdate:
-						if s, ok := constString(u.Key); ok && s == k && content[u.Map] {
-							upd = append(upd, u)
-						}
-					case *ssa.Call:
-						if CalleeName(u) == "builtin:delete" && content[u.Call.Args[0]] {
-							if s, ok := constString(u.Call.Args[1]); ok && s == k {
+			for _, mi := range marshals {
+				mf := mi.Parent()
+				for _, k := range []string{"auths", "credsStore"} {
+					var upd []ssa.Instruction
+					content := c11FieldReads(mf, c18Cfg+".content")
+					AllInstrs(mf, func(in ssa.Instruction) {
+						switch u := in.(type) {
+						case *ssa.MapUpdate:
+							if s, ok := constString(u.Key); ok && s == k && content[u.Map] {
 								upd = append(upd, u)
 							}
+						case *ssa.Call:
+							if CalleeName(u) == "builtin:delete" && content[u.Call.Args[0]] {
+								if s, ok := constString(u.Call.Args[1]); ok && s == k {
+									upd = append(upd, u)
+								}
+							}
 						}
-					}
-				})
-				ok := len(upd) > 0 && MustPass(mi.(ssa.Instruction), newCut().Instr(upd...))
-				c.Check(R3, tn+"|refreshed-before-marshal:"+k, mi.Pos(), ok, ifelse(ok, "content["+k+"] is rebuilt from the in-memory state on every path to the marshalling",
-					"a path marshals Config.content without first refreshing content["+k+"]: a Put/Delete/SetCredentialsStore is acknowledged but not written"))
+					})
+					ok := len(upd) > 0 && MustPass(mi, newCut().Instr(upd...))
+					c.Check(R3, tn+"|refreshed-before-marshal:"+k, mi.Pos(), ok, ifelse(ok, "content["+k+"] is rebuilt from the in-memory state on every path to the marshalling",
+						"a path marshals Config.content without first refreshing content["+k+"]: a Put/Delete/SetCredentialsStore is acknowledged but not written"))
+				}
 			}
 		}
 	}
 	if !found {
 		c.LostAnchor(R3, "call of the ingest function from credentials/internal/config")
 	}
+}
+
+// c18ResolveMarshal follows v (used at instruction use, in use's function) back
+// to the json.Marshal / json.MarshalIndent call(s) that produced the bytes.
+// Returns false when a hop is not behind the success edge of the call it crosses.
+func c18ResolveMarshal(fns []*ssa.Function, v ssa.Value, use ssa.Instruction, depth int, seen map[ssa.Value]bool, out *[]*ssa.Call) bool {
+	if v == nil || depth > 8 {
+		return true
+	}
+	ok := true
+	for _, r := range Roots(v) {
+		if seen[r] {
+			continue
+		}
+		seen[r] = true
+		switch u := r.(type) {
+		case *ssa.Extract:
+			call, isCall := u.Tuple.(*ssa.Call)
+			if !isCall {
+				continue
+			}
+			nm := CalleeName(call)
+			if nm == "encoding/json.MarshalIndent" || nm == "encoding/json.Marshal" {
+				if u.Index == 0 {
+					*out = append(*out, call)
+					if d, _ := c11SuccessDominates(call, use); !d {
+						ok = false
+					}
+				}
+				continue
+			}
+			if H := StaticCallee(call); H != nil && inModule(H) && len(H.Blocks) > 0 {
+				if ErrResultIndex(H.Signature) >= 0 {
+					if d, _ := c11SuccessDominates(call, use); !d {
+						ok = false
+					}
+				}
+				for _, a := range c11SuccessAtoms(H) {
+					if u.Index < len(a.Ret.Results) && !c18ResolveMarshal(fns, a.Ret.Results[u.Index], a.Ret, depth+1, seen, out) {
+						ok = false
+					}
+				}
+				continue
+			}
+			for _, a := range call.Call.Args {
+				if !c18ResolveMarshal(fns, a, use, depth+1, seen, out) {
+					ok = false
+				}
+			}
+		case *ssa.Call:
+			if H := StaticCallee(u); H != nil && inModule(H) && len(H.Blocks) > 0 && H.Signature.Results().Len() == 1 {
+				for _, ret := range Returns(H) {
+					if !c18ResolveMarshal(fns, ret.Results[0], ret, depth+1, seen, out) {
+						ok = false
+					}
+				}
+				continue
+			}
+			for _, a := range u.Call.Args { // wrappers such as bytes.NewReader(b), string(b)
+				if !c18ResolveMarshal(fns, a, use, depth+1, seen, out) {
+					ok = false
+				}
+			}
+		case *ssa.Parameter:
+			f := u.Parent()
+			idx := -1
+			for i, q := range f.Params {
+				if q == u {
+					idx = i
+				}
+			}
+			if f.Parent() != nil || idx < 0 {
+				continue
+			}
+			for _, g := range fns {
+				for _, cs := range Calls(g, func(string) bool { return true }) {
+					if StaticCallee(cs) == f && idx < len(cs.Common().Args) {
+						if !c18ResolveMarshal(fns, cs.Common().Args[idx], cs.(ssa.Instruction), depth+1, seen, out) {
+							ok = false
+						}
+					}
+				}
+			}
+		case *ssa.Slice:
+			if !c18ResolveMarshal(fns, u.X, use, depth+1, seen, out) {
+				ok = false
+			}
+		}
+	}
+	return ok
 }
 
 // ---------- R4 ----------
@@ -900,6 +1499,10 @@ var c18Mutants = []Mutant{
 		Old:    "\t\tif err := tempFile.Close(); err != nil && ingestErr == nil {\n\t\t\tingestErr = fmt.Errorf(\"failed to close ingest file: %w\", err)\n\t\t}\n",
 		New:    "\t\ttempFile.Close()\n",
 		Expect: "C18.R1.atomic-replace|~/registry/remote/credentials/internal/ioutil.Ingest$1|(*os.File).Close"},
+	{Name: "temp-file-never-closed", File: "registry/remote/credentials/internal/ioutil/ioutil.go",
+		Old:    "\t\tif err := tempFile.Close(); err != nil && ingestErr == nil {\n\t\t\tingestErr = fmt.Errorf(\"failed to close ingest file: %w\", err)\n\t\t}\n",
+		New:    "",
+		Expect: "C18.R1.atomic-replace|~/registry/remote/credentials/internal/ioutil.Ingest|close-error-captured"},
 	{Name: "copy-error-swallowed", File: "registry/remote/credentials/internal/ioutil/ioutil.go",
 		Old:    "\tif _, err := io.Copy(tempFile, content); err != nil {\n\t\treturn \"\", fmt.Errorf(\"failed to ingest: %w\", err)\n\t}\n",
 		New:    "\tio.Copy(tempFile, content)\n",
@@ -924,6 +1527,10 @@ var c18Mutants = []Mutant{
 		Old:    "\tcfg.rwLock.Lock()\n\tdefer cfg.rwLock.Unlock()\n\n\tauthCfg := NewAuthConfig(cred)",
 		New:    "\tcfg.rwLock.RLock()\n\tdefer cfg.rwLock.RUnlock()\n\n\tauthCfg := NewAuthConfig(cred)",
 		Expect: "C18.R2.guarded-by"},
+	{Name: "save-outside-critical-section", File: "registry/remote/credentials/internal/config/config.go",
+		Old:    "\tcfg.rwLock.Lock()\n\tdefer cfg.rwLock.Unlock()\n\n\tcfg.credentialsStore = credsStore\n\treturn cfg.saveFile()",
+		New:    "\tcfg.rwLock.Lock()\n\tcfg.credentialsStore = credsStore\n\tcfg.rwLock.Unlock()\n\tcfg.rwLock.RLock()\n\tdefer cfg.rwLock.RUnlock()\n\treturn cfg.saveFile()",
+		Expect: "C18.R2.guarded-by|(*~/registry/remote/credentials/internal/config.Config).saveFile|file-replaced-under-write-lock"},
 	{Name: "get-without-lock", File: "registry/remote/credentials/internal/config/config.go",
 		Old:    "\tcfg.rwLock.RLock()\n\tdefer cfg.rwLock.RUnlock()\n\n\tauthCfgBytes, ok := cfg.authsCache[serverAddress]",
 		New:    "\tauthCfgBytes, ok := cfg.authsCache[serverAddress]",
